@@ -16,7 +16,8 @@
 #   a + b  (lists)                                a ++ b, the right operand typed like the left one (`xs + []`)
 #   x if s else y  (s a str)                      truthiness of a str = non-empty
 #   x if T else y / `if T:`  with T decided by an ABSENT parameter (`p is not None`)   only the live branch (expression level)
-#   x is True / x is False / x is not …           on a `bool` and on a `bool | str` (`Py.BoolOrStr.isBool`)
+#   x is True / x is False / x is not …           on a `bool` and on a `bool | str` (`Py.BoolOrStr.isBool`); a str / bool literal or a str-valued
+#                                                 conditional stored into a `bool | str` variable is its `.str` / `.bool` view
 #   isinstance(x, str)                            on a `bool | str`
 #   for x in xs  (xs : Optional list)             `None` is not iterable: raises, else the list
 #   for x in col / col[i] / np.issubdtype(col.dtype, np.floating) / v != c / v + c     a table column whose dtype is known at run time
@@ -171,6 +172,11 @@ def _wr_call_translated(tr, e, callee):
 
 def _wr_expr(tr, e, want):
     sp = tr.spec
+    # ---- a `str` / `bool` literal stored where a `bool | str` is declared
+    if want == "PyBoolStr" and isinstance(e, ast.Constant) and isinstance(e.value, (str, bool)):
+        if isinstance(e.value, bool):
+            return [], f"(Py.BoolOrStr.bool {'true' if e.value else 'false'})", "PyBoolStr"
+        return [], f"(Py.BoolOrStr.str {lean_string(e.value)})", "PyBoolStr"
     # ---- f-strings
     if isinstance(e, ast.JoinedStr):
         steps, parts = [], []
@@ -192,8 +198,9 @@ def _wr_expr(tr, e, want):
             return s0, c, t
         s0, c, tc = tr.tr(e.test)
         if tc == "String":
-            s1, a, ta = tr.tr(e.body, want)
-            s2, b, tb = tr.tr(e.orelse, want)
+            w = None if want == "PyBoolStr" else want       # the branches are typed on their own; the result is fitted to the slot below
+            s1, a, ta = tr.tr(e.body, w)
+            s2, b, tb = tr.tr(e.orelse, w)
             if s1 or s2 or ta != tb:
                 raise Untranslatable(f"{sp.lean}: `{ast.unparse(e)}`")
             code, t = _wr_fit(f"(if Py.strTruthy {c} then {a} else {b})", ta, want)
